@@ -9,7 +9,9 @@ EXTENDS Shapes
 P1(s) == PrintS(<<Str(s)>>)
 ShowArgs == <<PrintS(<<Mem(V("$ARG"), "count", <<>>)>>), Forall("A", V("$ARG"), "auto", <<PrintS(<<Str("["), V("A"), Str("]")>>)>>)>>
 Returns == << <<>>, <<Return(I(42))>>, <<Return(D(5))>>, <<Return(Str("text"))>>, <<Return(B(TRUE))>>, <<Return(NullC)>>, <<Return(Call("int", <<>>))>>,
-              <<Return(NoExpr)>>, <<Return(Call("tab", <<I(1), I(1)>>))>>, <<Return(Bin("+", I(40), I(2))), P1("never")>> >>
+              <<Return(NoExpr)>>, <<Return(Call("tab", <<I(1), I(1)>>))>>, <<Return(Bin("+", I(40), I(2))), P1("never")>>,
+              \* texts that must be printed as they are (no interpretation of % or backslash by the command)
+              <<Return(Str("100%% sure %d %s"))>>, <<Return(Str("a%b%"))>>, <<PrintS(<<Str("50%% off %s")>>), Return(Str("%5d|%-3s|%x"))>> >>
 Fails == << <<Let("X", Bin("/", I(1), I(0)))>>, <<RaiseS("MYERR")>>, <<Let("X", Mem(Call("tab", <<I(1), I(1)>>), "at", <<I(9)>>))>>,
             <<Begin(<<RaiseS("E1")>>, <<When("E2", <<P1("no")>>)>>)>>, <<For("I", I(1), I(3), NoExpr, "auto", <<PutS(<<V("I")>>), If(Bin("==", V("I"), I(2)), <<RaiseS("OUT_OF_RANGE")>>, <<>>)>>)>> >>
 Progs == {ShowArgs \o <<P1("body")>> \o Returns[j] : j \in DOMAIN Returns}
@@ -26,7 +28,7 @@ Inter == { <<Let("X", I(5)), PrintS(<<V("X")>>), PrintS(<<Bin("/", I(1), I(0))>>
 
 a1 == I(7)  a2 == I(2)  a3 == I(3)
 ExprTrees == {Bin(p, Bin(c, a1, a2), a3) : p \in {"+", "-", "*", "/", "%"}, c \in {"+", "*", "**"}} \cup {Bin("<", a1, a2), Bin("==", Str("a"), Str("a")), Str("text"), D(5), B(FALSE), NullC,
-              Bin("/", a1, I(0)), Call("int", <<>>), Bin("+", Str("a"), Str("b"))}
+              Bin("/", a1, I(0)), Call("int", <<>>), Bin("+", Str("a"), Str("b")), Str("ratio 100%"), Str("%s%s%d")}
 
 VARIABLE p
 Init == p \in {[k |-> "prog", m |-> m, a |-> a, mode |-> mode] : m \in Progs, a \in DOMAIN ArgVecs, mode \in {"file", "stdin", "out"}}
